@@ -310,7 +310,7 @@ def snapshot(s, scfg, items, step, sid, slow, stats):
                    "sel": last["sel"], "multi": last["multi"], "cy": last["cy"], "offset": last["offset"], "count": last["count"], "track": last["track"],
                    "pattern": cells(pattern)},
             "vis": vis, "hmissing": max(0, scfg.nhl - len(items)), "filtered": not lists[-1]["pass"], "maxItems": last["maxItems"],
-            "orig": [cells(plain(scfg, items[i + scfg.nhl])) if 0 <= i + scfg.nhl < len(items) else None for i in ids],
+            "orig": [cells(plain(scfg, items[i + scfg.nhl])) if 0 <= i + scfg.nhl < len(items) else ["<not a line of the input>"] for i in ids],
             "rows": [cells(r) for r in rows]}
 
 
@@ -348,6 +348,20 @@ def run_session(ctx, fzf, sid, scfg, items, steps, width, height, slow=False, st
                 s.resize(arg[0], arg[1])
                 s.wait_for(lambda tr: sum(1 for e in tr if e["ev"] == "term.render" and e["what"] == "flush") > n_flush,
                            timeout=120, what="redraw after resize")
+            elif kind == "reload":
+                # reload / reload-sync with other input: from the list of the new input generation on, the screen is judged
+                # against the new lines (header lines included)
+                sync, new_items = arg
+                path = os.path.join(ctx.work, "c15-input-%d-%d-%d.txt" % (sid, ix, int(slow)))
+                with open(path, "w") as f:
+                    f.write("".join(i + "\n" for i in new_items))
+                major = max([e["mrev"][0] for e in s.trace() if e["ev"] == "term.list" and "mrev" in e] or [0])
+                st, _ = s.post("%s(cat %s)" % ("reload-sync" if sync else "reload", path), timeout=60)
+                if st != 200:
+                    raise Infra("POST reload -> %d" % st)
+                s.wait_for(lambda tr: any(e["ev"] == "term.list" and "mrev" in e and e["mrev"][0] > major and not e["reading"] for e in tr) or
+                           any(e["ev"] == "term.exit" for e in tr), timeout=120, what="list of the reloaded input (step %d)" % ix)
+                items = new_items
             else:
                 if kind == "post":
                     try:
@@ -711,7 +725,7 @@ def make_jobs(ctx):
         w, h = rng.choice(SIZES_W), rng.choice(SIZES_H)
         jobs.append((scfg, items, make_steps(rng, rng.randint(ctx.pick(10, 14), ctx.pick(22, 34)), scfg.multi, w, h,
                                              vis=0.2 if k % 3 == 0 else 0.06), w, h))
-    kinds = [(jobs, "base"), (make_hjobs(ctx), "long"), (make_tjobs(ctx), "tabs"), (make_pjobs(ctx), "prompt")]
+    kinds = [(jobs, "base"), (make_hjobs(ctx), "long"), (make_tjobs(ctx), "tabs"), (make_pjobs(ctx), "prompt"), (make_mjobs(ctx), "modes")]
     dev = os.environ.get("VERIF_C15_DEV")          # development aid: run only the named E families / kinds of J sessions
     return [j for js, kind in kinds for j in js if not dev or kind in dev.split(",")]
 
@@ -953,6 +967,42 @@ def make_pjobs(ctx):
                 steps.append(vis_step(rng))
             else:
                 steps.append(("resize", [rng.randint(20, 40), rng.choice([4, 6, 8]) + (2 if border else 0)]))
+        jobs.append((scfg, items, steps, w, h))
+    return jobs
+
+
+def make_mjobs(ctx):
+    """Sessions about what the info line and the header depend on besides the list: the selection MODE (a finder started
+    without --multi gets multi-selection switched on, off and on again with other limits: ` (0)` / ` (0/N)` appear and go)
+    and the INPUT (reload / reload-sync with --header-lines: the header rows are the first lines of the input on display,
+    never rows of the list).  A screen is judged after every single step."""
+    rng = ctx.rng
+    jobs = []
+    infos = ["default", "inline", "right", "inline-right", "default", "inline"]
+    for k in range(ctx.pick(8, 60)):
+        reloads = k % 2 == 1
+        scfg = SCfg(layout=rng.choice(["default", "reverse", "reverse-list"]), info=infos[k % len(infos)], sep=rng.random() < 0.7,
+                    header=rng.choice([None, None, "HEAD"]), nhl=rng.choice([1, 2, 3]) if reloads else rng.choice([0, 0, 1]),
+                    header_first=rng.random() < 0.3, inputless=False, prompt=None, pointer=None, marker=None, ellipsis=None,
+                    multi=None if (not reloads or rng.random() < 0.5) else rng.choice([2, "inf"]),
+                    cycle=False, scroll_off=None, disabled=rng.random() < 0.5)
+
+        def gen(g):
+            n = scfg.nhl + rng.choice([1, 2, 4, 7, 12])
+            return ["%s %d.%d" % (rng.choice(ASCII_POOL), g, i) for i in range(n)]
+        items = gen(0)
+        on = lambda: rng.choice(["change-multi", "change-multi(2)", "change-multi(5)", "change-multi(3)"])
+        move = lambda: rng.choice(["down", "up", "down+down", "last", "first"])
+        steps = [("post", move())]
+        for g in range(1, rng.randint(3, 5)):
+            if scfg.multi is None or rng.random() < 0.5:
+                steps += [("post", on()), ("post", move()), ("post", rng.choice(["toggle", "toggle+down", "select-all", "down"])),
+                          ("post", rng.choice(["change-multi(0)", "change-multi(1)", on()])), ("post", move())]
+            if reloads:
+                steps += [("reload", [g % 3 != 0, gen(g)]), ("post", move())]
+                if rng.random() < 0.4:
+                    steps.append(("post", rng.choice(["toggle", "toggle-header", "put(a)", "toggle-header+down"])))
+        w, h = rng.choice([30, 37, 50]), rng.choice([8, 10, 12, 16])
         jobs.append((scfg, items, steps, w, h))
     return jobs
 
